@@ -54,6 +54,78 @@ theorem C05_closure_release_never_waits_for_a_running_closure :
     Skeleton.current.clInvokeOutsideLock = true ∧ Skeleton.current.clLockIsMutex = true ∧
     Skeleton.current.clDeleteUnderLock = true ∧ Skeleton.current.clLookupUnderLock = true := by decide
 
+/-- The same, as a property of the model (M2 has the mutex as `clLock` and the bodies of invoked closures
+    as `running`; a hit of `closureInvoke` keeps the mutex across the body iff `clInvokeOutsideLock` is
+    false): on the current tree the mutex is free in every reachable state — it is never held from one
+    step to the next, however many closure bodies are running. -/
+theorem C05_closure_lock_never_held_across_a_body : ∀ s, Reach Skeleton.current s → s.clLock = none :=
+  fun _ h => reach_cl_free _ cur_invoke_outside_lock h
+
+/-- Hence the release step of a call is never disabled by a running closure: whenever a call stands
+    before its return — normal (`decoded`) or panicking, e.g. after its context was cancelled or the
+    link ended — the return step is enabled, the call is `returned` after it and every closure it had
+    passed is out of the table; nothing is assumed about `s.running` (the call's own closures may be
+    running at that moment: see the example below). -/
+theorem C05_release_never_disabled_by_a_running_closure : ∀ s, Reach Skeleton.current s → ∀ c,
+    ((s.calls c).pc = .decoded →
+      ∃ s', step Skeleton.current s (.callReturnOk c) = some s' ∧ (s'.calls c).pc = .returned ∧
+        ∀ id, id ∈ (s.calls c).closures → s'.closures id = false) ∧
+    (∀ e, (s.calls c).pc = .panicking e →
+      ∃ s', step Skeleton.current s (.callRecover c e) = some s' ∧ (s'.calls c).pc = .returned ∧
+        ∀ id, id ∈ (s.calls c).closures → s'.closures id = false) := by
+  intro s h c
+  have hd : Skeleton.current.stubClosureFreeDeferred = true := by decide
+  refine ⟨fun hp => ⟨_, callReturnOk_enabled _ cur_live h c hp, by simp, ?_⟩,
+          fun e hp => ⟨_, callRecover_enabled _ cur_live h c e hp, by simp, ?_⟩⟩ <;>
+    (intro id hm; simp [freeClosures, hd, hm])
+
+/-- the prefix of the witnesses below: call 0 passes closure 0 and is in flight, the peer invokes the
+    closure (thread 9: a hit, the body is running), the caller's context is cancelled and call 0 gets as
+    far as its return (`decoded`, outcome: the context error) -/
+def cancelWhileClosureRuns : List Act :=
+  [.callStart 0 5 2 1, .callReceive 0, .callSpawn 0, .callWrite 0, .waiterRecvCall 0,
+   .closureInvoke 9 0, .ctxCancel 5, .ctxPropagate 0,
+   .waiterGetsCtx 0, .waiterSend 0, .waiterFree 0, .callTakeRes 0 false]
+
+/-- …and the link ends instead (panic path): call 0 is `panicking eLinkCtx`, before `callRecover` -/
+def linkEndsWhileClosureRuns : List Act :=
+  [.callStart 0 5 2 1, .callReceive 0, .callSpawn 0, .callWrite 0, .waiterRecvCall 0,
+   .closureInvoke 9 0, .cancelLink, .callLinkCtx 0]
+
+/-- non-vacuity of `C05_release_never_disabled_by_a_running_closure`, on the current tree: the body of
+    call 0's closure is running, nobody holds the mutex, the return is enabled on both paths -/
+example : (run Skeleton.current init cancelWhileClosureRuns).map
+    (fun s => decide (s.invokes = [⟨9, 0, true⟩] ∧ s.running 9 = some 0 ∧ s.clLock = none ∧
+                      (s.calls 0).pc = .decoded ∧ (s.calls 0).outcome = .ok ⟨none, .ctxErr⟩ ∧
+                      (step Skeleton.current s (.callReturnOk 0)).isSome = true)) = some true := by decide
+example : (run Skeleton.current init linkEndsWhileClosureRuns).map
+    (fun s => decide (s.running 9 = some 0 ∧ s.clLock = none ∧ (s.calls 0).pc = .panicking eLinkCtx ∧
+                      (step Skeleton.current s (.callRecover 0 eLinkCtx)).isSome = true)) = some true := by decide
+
+/-- What the fact protects against, as a behaviour of the model: on the current tree with that ONE fact
+    flipped (`CallClosure`: `Lock(); defer Unlock()`), after the very same steps the invoking thread 9
+    holds the mutex across the body of closure 0.  The cancelled call 0 has its result (the context
+    error) but cannot return: `callReturnOk 0` — the deferred `freeClosure()` — is NOT enabled while the
+    body runs, and becomes enabled only once the body has returned (`closureBodyDone 9`).  Likewise on
+    the panic path (the link ended): `callRecover 0 eLinkCtx` is not enabled, so the error is not even
+    reported to `setErr`, until the body returns.  A cancelled call waits for user code of unbounded
+    duration; if that body itself waits for the call's return (or makes a closure-carrying call, see
+    `C02_lock_held_across_closure_blocks_other_calls`), this is a deadlock. -/
+theorem C05_lock_held_across_closure_blocks_release :
+    (run skLockAcrossClosure init cancelWhileClosureRuns).map
+      (fun s => decide (s.invokes = [⟨9, 0, true⟩] ∧ s.running 9 = some 0 ∧ s.clLock = some 9 ∧
+                        (s.calls 0).pc = .decoded ∧ (s.calls 0).outcome = .ok ⟨none, .ctxErr⟩ ∧
+                        (step skLockAcrossClosure s (.callReturnOk 0)).isSome = false)) = some true ∧
+    (run skLockAcrossClosure init (cancelWhileClosureRuns ++ [.closureBodyDone 9])).map
+      (fun s => decide (s.running 9 = none ∧ s.clLock = none ∧
+                        (step skLockAcrossClosure s (.callReturnOk 0)).isSome = true)) = some true ∧
+    (run skLockAcrossClosure init linkEndsWhileClosureRuns).map
+      (fun s => decide (s.clLock = some 9 ∧ (s.calls 0).pc = .panicking eLinkCtx ∧
+                        (step skLockAcrossClosure s (.callRecover 0 eLinkCtx)).isSome = false)) = some true ∧
+    (run skLockAcrossClosure init (linkEndsWhileClosureRuns ++ [.closureBodyDone 9])).map
+      (fun s => decide ((step skLockAcrossClosure s (.callRecover 0 eLinkCtx)).isSome = true)) = some true := by
+  refine ⟨?_, ?_, ?_, ?_⟩ <;> decide
+
 /-- `utils.Call` is one reflect call under a deferred recover: nothing in it can wait and it touches no
     package-level state (checked against the regenerated skeleton) — handlers nest `utils.Call` (a handler
     invoking a closure), so anything acquired there and held across the call could exhaust and deadlock. -/
@@ -62,6 +134,9 @@ theorem C05_reflect_call_never_waits : Skeleton.current.ucNoWaiting = true ∧ S
 end Panrpc.Ep
 
 #print axioms Panrpc.Ep.C05_closure_release_never_waits_for_a_running_closure
+#print axioms Panrpc.Ep.C05_closure_lock_never_held_across_a_body
+#print axioms Panrpc.Ep.C05_release_never_disabled_by_a_running_closure
+#print axioms Panrpc.Ep.C05_lock_held_across_closure_blocks_release
 
 #print axioms Panrpc.Ep.C05_no_crash
 #print axioms Panrpc.Ep.C05_projects_to_broadcaster
